@@ -211,6 +211,31 @@ def _shadow_safe(body, d, sub):
     return t
 
 
+def _seq_parts(it):
+    """the elements an iterator expression yields, as parts of a list (`vec+`): single elements, `for` parts; None when not understood"""
+    if it[0] == "call" and it[1] == "iter::once" and len(it[2]) == 1:
+        return [it[2][0]]
+    if it[0] == "call" and it[1] == "Iterator::chain" and len(it[2]) == 2:
+        a, b = _seq_parts(it[2][0]), _seq_parts(it[2][1])
+        return None if a is None or b is None else a + b
+    if it[0] == "call" and it[1] == "Iterator::map" and len(it[2]) == 2:
+        inner = _seq_parts(it[2][0])
+        f = it[2][1]
+        if inner is None:
+            return None
+        if f[0] == "closure" and f[2] == 1:
+            ap = lambda x: _apply(f, x)
+        elif f[0] == "def":
+            ap = lambda x: ("call", f[1], [x])          # a function passed by name
+        else:
+            return None
+        return [("for", p[1], ap(p[2])) if p[0] == "for" else ap(p) for p in inner]
+    if it[0] in ("call", "field", "param", "proj", "elem", "index") and not (it[0] == "call" and it[1] in ("Iterator::filter", "Iterator::filter_map", "Iterator::flat_map",
+                                                                                                         "Iterator::enumerate", "Iterator::zip", "Iterator::rev")):
+        return [("for", it, ("elem", it))]
+    return None
+
+
 def _compose(g, f):
     """|x| g(f(x)) for two one-parameter closures written at the same depth"""
     d = g[1]
@@ -2517,6 +2542,11 @@ class Norm:
                 return _mk_if(recv[2][0], recv[2][1], ("tpl", "quote", "", []))
             if name in TRANSPARENT and not args:
                 return recv
+            if name == "Iterator::collect" and not args and any(x[0] == "call" and x[1] in ("Iterator::chain", "iter::once") for x in subterms(recv, closures=False)):
+                # once(a).chain(xs.map(f)).collect()  ==  the list built as: a, then f(x) for x in xs
+                parts = _seq_parts(recv)
+                if parts is not None:
+                    return ("call", "vec+", parts)
             if name == "Iterator::collect" and not args and recv[0] == "call" and recv[1] == "Iterator::filter_map" and len(recv[2]) == 2 \
                     and recv[2][1][0] == "closure" and recv[2][1][2] == 1 and peel_ty(e.get("ty", "")).startswith(("std::result::Result<std::vec::Vec<", "core::result::Result<alloc::vec::Vec<")):
                 # it.filter_map(|x| O.map(|y| R)).collect::<Result<Vec<_>, _>>()  ==  Ok of { for x in it { if let Some(y) = O { push R? } } }
